@@ -317,3 +317,30 @@ def walk (server : CoinState) : Nat → List Bytes → Except Err (List Bytes)
         | .ok rest => .ok (ids ++ rest)
 
 end C10Walk
+
+/-! ### one requester against one server state, round by round (C10) -/
+
+namespace C10Converge
+open Model
+
+variable (C : Crypto) (P : Params)
+
+/-- the server's answers to the data requests of one batch: the blocks it stores, in request order -/
+def serveData (srv : CoinState) (ids : List Bytes) : List Block := ids.filterMap srv.blocks.get?
+
+/-- deliveries of answered blocks (`in_response_to = 1 ≠ 0`) on connection `c`, in order -/
+def deliver (n : Node) (c : Nat) (bs : List Block) (now : Int) : Node :=
+  bs.foldl (fun n b => (handleBlockReceived C P n c 1 b now).1) n
+
+/-- rounds of inventory → data requests → deliveries → follow-up against a fixed server state -/
+def syncRun (srv : CoinState) (c : Nat) (now : Int) : Nat → Node → List Bytes → Node
+  | 0, n, _ => n
+  | fuel + 1, n, loc =>
+    match inventoryReply C P srv loc with
+    | .error _ => n
+    | .ok [] => n
+    | .ok (i :: rest) =>
+      let wanted := (i :: rest).filter fun x => !n.mgr.coinstate.blocks.contains x
+      syncRun srv c now fuel (deliver C P n c (serveData srv wanted) now) [(i :: rest).getLast!]
+
+end C10Converge
